@@ -103,6 +103,11 @@ def gen_cases(rng, tier):
                 guesses.insert(rng.randint(0, len(guesses)), {"target": key, "tkind": "horizon", "form": "const",
                                                               "kind": "const", "val": val})
         cases.append({"spec": spec, "guesses": guesses, "seed": rng.getrandbits(32)})
+    for i in range(14 if tier == "quick" else 200):
+        cases.append({"kind": "spline", "N": rng.choice([2, 3, 4, 5]), "layout": rng.choice(["mixed", "mixed", "equal", "scalar"]),
+                      "guess": [[ocpgen.rnd(rng, -2, 2), rng.choice([0.0, ocpgen.rnd(rng, -1, 1)])] for _ in range(2)],
+                      "when": rng.choice(["before", "after"]), "t0": ocpgen.rnd(rng, -1, 1, 2), "T": ocpgen.rnd(rng, 0.5, 3, 2),
+                      "grid": ocpgen.gen_grid(rng, ["uniform", "geometric", "function"], 3), "seed": rng.getrandbits(32)})
     return cases
 
 
@@ -331,9 +336,77 @@ def _compare_with(spec, guesses, ph, exp, res, where):
     return not res["violations"]
 
 
+def run_spline(case):
+    """SplineMethod: constant and linear-in-time guesses for the head of a chain are reproduced exactly by the spline
+    (coefficients at the Greville points reproduce linear functions), component by component of a vector state."""
+    import casadi as ca
+    import rockit
+    from ..gen import build
+    from ..obs import nlp
+    res = {"sig": "spline|N%d|%s|%s|%s" % (case["N"], case["layout"], case["when"], C.grid_tag(case["grid"])), "evals": 0,
+           "violations": [], "counters": {"quantities": 0, "nonzero_quantities": 0, "nlp_identity": 0, "post_transcription": 0}}
+    try:
+        ocp = rockit.Ocp(t0=case["t0"], T=case["T"])
+        if case["layout"] == "scalar":
+            p = ocp.state()
+            u1 = ocp.control()
+            ocp.set_der(p, u1)
+            comps = 1
+        else:
+            p = ocp.state(2)
+            comps = 2
+            if case["layout"] == "mixed":
+                # the two components head chains of different length
+                q = ocp.state()
+                u1, u2 = ocp.control(), ocp.control()
+                ocp.set_der(p, ca.vertcat(q, u1))
+                ocp.set_der(q, u2)
+            else:
+                uu = ocp.control(2)
+                ocp.set_der(p, uu)
+        ocp.add_objective(ocp.sum(ca.sumsqr(p), include_last=True))
+        gexpr = ca.vertcat(*[case["guess"][j][0] + case["guess"][j][1] * ocp.t for j in range(comps)])
+        if case["when"] == "before":
+            ocp.set_initial(p, gexpr)
+        ocp.method(rockit.SplineMethod(N=case["N"], grid=build.make_grid(case["grid"])))
+        ocp.solver("ipopt", {"ipopt.print_level": 0, "print_time": False})
+        if case["when"] == "after":
+            C.call("transcribe(first)", lambda: ocp._transcribed)
+            C.call("set_initial(after)", ocp.set_initial, p, gexpr)
+            res["counters"]["post_transcription"] += 1
+        view = C.call("transcribe", nlp.NlpView, ocp)
+        tt, vv = C.call("sample", ocp.sample, p, grid="control", refine=2)
+        F = ca.Function("s", [view.x, view.p], [ca.MX(tt), ca.MX(vv)])
+    except C.RockitRaised as e:
+        res["violations"].append(C.exc_violation(ID, e, "spline|" + case["layout"]))
+        return res
+    opti = view.opti
+    x0 = np.array(opti.debug.value(view.x, opti.initial())).reshape(-1)
+    t_, v_ = [np.array(a_, dtype=float) for a_ in F(x0, view.p0)]
+    t_ = t_.reshape(-1)
+    v_ = v_.reshape(comps, -1)
+    for j in range(comps):
+        want = case["guess"][j][0] + case["guess"][j][1] * t_
+        res["evals"] += 1
+        res["counters"]["quantities"] += 1
+        res["counters"]["nonzero_quantities"] += int(np.any(want != 0))
+        if np.max(np.abs(v_[j] - want)) > 1e-9 * (1 + np.max(np.abs(want))):
+            res["violations"].append({
+                "kind": "start-point", "mech": "C10|start-point|spline-state|%s" % case["layout"],
+                "detail": "SplineMethod, component %d of the chain head: starts at %s, the guess %g%+g*t gives %s (guess given "
+                          "%s transcription)" % (j, C.short(v_[j][:5]), case["guess"][j][0], case["guess"][j][1],
+                                                 C.short(want[:5]), case["when"])})
+            return res
+    res["nontrivial"] = True
+    res["sample"] = {"family": "SplineMethod", "layout": case["layout"], "N": case["N"], "guess": case["guess"]}
+    return res
+
+
 def run_case(case):
     from ..gen import build
     from . import engine
+    if case.get("kind") == "spline":
+        return run_spline(case)
     spec = case["spec"]
     guesses = case["guesses"]
     forms = ",".join(sorted("%s:%s" % (g["tkind"], g["form"]) for g in guesses))
